@@ -119,7 +119,7 @@ class FragmentsEngine(Engine):
     stub_components = []
     expected_probes = ["insert-before-first", "between-adjacent", "exact-fit-hole", "overlap-pred", "overlap-succ",
                        "overlap-both", "empty-at-occupied", "nonempty-over-earlier-empty", "op-after-failed-op",
-                       "backwards-insert", "extend-partial", "two-live-buffers", "cursor-assigned", "profile-long", "profile-far", "profile-bulk"]
+                       "backwards-insert", "extend-partial", "two-live-buffers", "cursor-assigned", "profile-long", "profile-far", "profile-bulk", "chunk-contains-fill-byte"]
 
     def init_worker(self, tree, wdir):
         import_fresh_bisturi(tree)
@@ -138,6 +138,22 @@ class FragmentsEngine(Engine):
             p = ch.pick("edge-offset", cands)
             return min(max(p, 0), POS_MAX)
         return ch.draw("pos", POS_MAX + 1)
+
+    def _content(self, ch, uniq, L, model, p, last):
+        """mostly unique bytes (every output byte attributable to one insert); now and then contents that a
+        content-sensitive implementation could confuse: the fill byte, the bytes already stored at the target, the
+        previous chunk again"""
+        if L == 0:
+            return b""
+        k = ch.weighted("content", [12, 1, 1, 1])
+        if k == 1:
+            return model.fill * L
+        if k == 2 and p is not None:
+            have = bytes(model.cells.get(q, model.fill[0]) for q in range(p, p + L))
+            return have
+        if k == 3 and last[0] and len(last[0]) >= 1:
+            return (last[0] * (L // len(last[0]) + 1))[:L]
+        return uniq.take(L)
 
     def _len(self, ch):
         return self._prof[3][ch.weighted("chunk-len", self._prof[4])]
@@ -163,6 +179,7 @@ class FragmentsEngine(Engine):
         nops = 1 + ch.draw("n-ops", self._prof[1])
         history = []
         interacting = 0
+        last = [b""]
 
         def violation(oracle, detail):
             out.violation = {"oracle": oracle, "actor": "", "detail": detail}
@@ -214,17 +231,19 @@ class FragmentsEngine(Engine):
             if failed_before:
                 st["probe:op-after-failed-op"] += 1
             if kind == 2:
-                chunks = [uniq.take(self._len(ch)) for _ in range(2 + ch.draw("extend-n", 2))]
+                chunks = [self._content(ch, uniq, self._len(ch), model, None, last) for _ in range(2 + ch.draw("extend-n", 2))]
                 p = cur
                 opdesc = ("extend", p, tuple(len(c) for c in chunks))
             else:
-                chunk = uniq.take(self._len(ch))
-                if kind == 0:
-                    p = self._position(ch, model, len(chunk))
-                else:
-                    p = cur
+                L = self._len(ch)
+                p = self._position(ch, model, L) if kind == 0 else cur
+                chunk = self._content(ch, uniq, L, model, p, last)
                 chunks = [chunk]
                 opdesc = ("insert" if kind == 0 else "append", p, len(chunk))
+            if chunks[-1]:
+                last[0] = chunks[-1]
+            if any(c and (c == model.fill * len(c) or not set(c).isdisjoint(model.fill)) for c in chunks):
+                st["probe:chunk-contains-fill-byte"] += 1
             history.append((bi,) + opdesc)
 
             # ---- probes on the model, before the operation
